@@ -798,6 +798,7 @@ func runC12(c *Ctx) {
 		la.lockBalance(ob, f)
 	}
 	r.readLoopEndRules(c, true, "R8")
+	r.wrapperCloseRule(c)
 	_ = sentConn
 	_ = strings.Join
 }
@@ -1728,4 +1729,104 @@ func isSentinelErr(p *Prog, v ssa.Value) bool {
 		})
 	}
 	return okInit
+}
+
+// wrapperCloseRule: a socket wrapper of this package that the constructor installs as the shared socket (the batch
+// conn) closes the wrapped socket on every path of its Close: otherwise the port stays bound and the read loop,
+// blocked in its read, never ends.
+func (r *udpRoles) wrapperCloseRule(c *Ctx) {
+	p := c.P
+	var wrappers []types.Type
+	instrsOfU(r.Listen, func(in ssa.Instruction) {
+		st, ok := in.(*ssa.Store)
+		if !ok {
+			return
+		}
+		fr, ok := asFieldAddr(st.Addr)
+		if !ok || fr.SName != r.LT || fr.Field != r.pConn {
+			return
+		}
+		mi, ok := st.Val.(*ssa.MakeInterface)
+		if !ok {
+			return
+		}
+		t := mi.X.Type()
+		if pt, ok := t.Underlying().(*types.Pointer); ok {
+			if nt, ok := pt.Elem().(*types.Named); ok && nt.Obj().Pkg() != nil && shortPkg(nt.Obj().Pkg().Path()) == "udp" {
+				wrappers = append(wrappers, t)
+			}
+		}
+	})
+	for _, wt := range wrappers {
+		var closeFn *ssa.Function
+		for _, f := range p.Funcs {
+			if f.Name() == "Close" && f.Signature.Recv() != nil && types.Identical(f.Signature.Recv().Type(), wt) {
+				closeFn = f
+			}
+		}
+		if closeFn == nil {
+			continue
+		}
+		o := c.Obl("R9", fname(closeFn), "the socket wrapper installed by the constructor closes the wrapped socket on every path of its Close (the port is released and the blocked read loop ends whatever the final flush did)", 1)
+		seenSite := map[token.Pos]bool{}
+		paths, ok := enumIterPathsU(closeFn, 20000)
+		if !ok {
+			o.Undecide("paths of %s not enumerable", fname(closeFn))
+			continue
+		}
+		for i := range paths {
+			pp := &paths[i]
+			ret, isRet := pp.last().(*ssa.Return)
+			if !isRet || pp.Loop {
+				continue
+			}
+			closed := false
+			for j, in := range pp.Instrs {
+				ci, ok := in.(ssa.CallInstruction)
+				if !ok {
+					continue
+				}
+				if _, isGo := in.(*ssa.Go); isGo {
+					continue
+				}
+				cm := ci.Common()
+				var recv ssa.Value
+				if cm.IsInvoke() && cm.Method.Name() == "Close" {
+					recv = cm.Value
+				} else if sc := cm.StaticCallee(); sc != nil && sc.Name() == "Close" && len(cm.Args) > 0 && sc != closeFn {
+					recv = cm.Args[0]
+				}
+				if recv == nil {
+					continue
+				}
+				if fr, ok := asFieldLoad(pp.valueAt(recv, j)); ok && derefNamed(fr.Base.Type()) == derefNamed(wt) {
+					closed = true
+					if !seenSite[in.Pos()] {
+						seenSite[in.Pos()] = true
+						o.Site(in.Pos(), "closes %s", fr.Field)
+					}
+				}
+			}
+			if !closed {
+				where := ret.Pos()
+				for j := len(pp.Instrs) - 1; j >= 0; j-- {
+					if rr, ok := pp.Instrs[j].(*ssa.Return); ok && rr.Pos().IsValid() {
+						where = rr.Pos()
+						break
+					}
+				}
+				o.Fail(where, "%s can return without having closed the wrapped socket", fname(closeFn))
+			}
+		}
+	}
+}
+
+func derefNamed(t types.Type) string {
+	if pt, ok := t.Underlying().(*types.Pointer); ok {
+		t = pt.Elem()
+	}
+	if nt, ok := t.(*types.Named); ok {
+		return nt.Obj().Name()
+	}
+	return t.String()
 }
